@@ -280,13 +280,14 @@ def rule_cli(ck: Check, repo: Repo) -> None:
                            "FileNotFoundError": "_not_found"}[exc]
             if not (len(in_rc) == 1 and _sets_nonzero(in_rc[0][2], rc)):
                 r.violation(q, f"failure ({exc}) does not set a non-zero exit status", f"{in_rc}", repo.loc(fn))
-            if reports != [want_report]:
-                r.violation(q, f"failure ({exc}) reporting", f"{reports}", repo.loc(fn))
+            # the property asks for the exit status; the message is checked only against MIS-reporting (a failure announced as success)
+            if "_successfully_downloaded" in reports:
+                r.violation(q, f"failure ({exc}) reporting", f"{reports}: a failed download is announced as a success", repo.loc(fn))
         else:
             if any(not _keeps_value(e[2], rc) for e in in_rc):
                 r.violation(q, "success changes the return code", f"{in_rc}", repo.loc(fn))
-            if reports != ["_successfully_downloaded"]:
-                r.violation(q, "success reporting", f"{reports}", repo.loc(fn))
+            if any(x != "_successfully_downloaded" for x in reports):
+                r.violation(q, "success reporting", f"{reports}: a successful download is announced as a failure", repo.loc(fn))
 
 
 def rule_destination(ck: Check, repo: Repo) -> None:
